@@ -160,6 +160,7 @@ class Inc:
         self.op = None; self.node = None; self.fam_mismatch = False; self.explicit_port = None
         self.first_io = None     # position of the first read / write call on this incarnation
         self.touched = False     # accepted socket: closed / re-opened between the accept call and its handler
+        self.ambiguous = False   # connector: another pending connect shows the same visible endpoint at the same acceptor address
         # accepted
         self.completion = None
 
@@ -590,7 +591,10 @@ def _link(an):
             # their SYNs can overtake each other (different nodes), which the caller is told about
             c = cands[0]
             a.conn = c; c.arrival = a
-            a.ambiguous = len(cands) > 1 and len(set((x.local_known, x.dialled) for x in cands)) > 1
+            a.ambiguous = (len(cands) > 1 and len(set((x.local_known, x.dialled) for x in cands)) > 1) or c.ambiguous
+            if a.ambiguous:
+                # which of them this SYN belongs to cannot be told from the trace: nothing pair-specific is claimed
+                for x in cands: x.ambiguous = True
             if isinstance(c.target, AccInc):
                 a.acc = c.target
                 # closed (or re-opened) between the connect call and the arrival of the SYN: never queued
